@@ -16,26 +16,35 @@ OPS = [
     (r"\.any\(", ".all("), (r"\.all\(", ".any("),
     (r"\.unwrap_or\(true\)", ".unwrap_or(false)"), (r"\.unwrap_or_default\(\)", ".unwrap_or(true)"),
     (r" > 1\b", " > 0"), (r" >= ", " > "), (r" < ", " <= "),
+    (r" <= ", " < "), (r"\.rev\(\)", ""), (r"\.skip\(1\)", ".skip(0)"), (r"\.starts_with\(", ".ends_with("),
+    (r" !(?=[a-z_(])", " "), (r"\(!(?=[a-z_])", "("), (r"\.min\(", ".max("), (r"\.max\(", ".min("),
+    (r"\b0\b(?!\.)", "1"), (r"\.filter\(", ".skip_while("),
 ]
 FILES = ["impl/src/from.rs", "impl/src/into.rs", "impl/src/try_into.rs", "impl/src/error.rs", "impl/src/utils.rs", "impl/src/fmt/mod.rs",
          "impl/src/fmt/display.rs", "impl/src/fmt/debug.rs", "impl/src/fmt/parsing.rs", "impl/src/parsing.rs", "impl/src/add_like.rs",
          "impl/src/mul_like.rs", "impl/src/mul_helpers.rs", "impl/src/as/mod.rs", "impl/src/deref.rs", "impl/src/index.rs", "impl/src/try_from.rs",
          "impl/src/from_str.rs", "impl/src/not_like.rs", "impl/src/sum_like.rs", "impl/src/constructor.rs", "impl/src/unwrap.rs",
-         "impl/src/try_unwrap.rs", "impl/src/is_variant.rs", "impl/src/into_iterator.rs", "impl/src/add_assign_like.rs", "src/fmt.rs", "src/as.rs"]
+         "impl/src/try_unwrap.rs", "impl/src/is_variant.rs", "impl/src/into_iterator.rs", "impl/src/add_assign_like.rs", "impl/src/add_helpers.rs",
+         "impl/src/mul_assign_like.rs", "impl/src/deref_mut.rs", "impl/src/index_mut.rs", "impl/src/as/ref.rs", "impl/src/as/mut.rs",
+         "src/fmt.rs", "src/as.rs", "src/convert.rs", "src/ops.rs", "src/str.rs", "src/try_unwrap.rs", "src/add.rs"]
 
 
 def candidates():
     out = []
     for f in FILES:
         lines = open(os.path.join(REPO, f)).read().split("\n")
-        in_test = False
-        hook = False
+        skip = False        # inside a guarded hook item or a #[cfg(test)] item: skipped up to its closing brace / `;`
+        depth = 0
+        opened = False
         for i, l in enumerate(lines):
-            if "#[cfg(test)]" in l:
-                in_test = True
-            if "jeltef_derive_more_verif" in l:
-                hook = True
-            if in_test or hook:
+            if not skip and ("#[cfg(feature = \"jeltef_derive_more_verif\")]" in l or "#[cfg(test)]" in l):
+                skip, depth, opened = True, 0, False
+                continue
+            if skip:
+                depth += l.count("{") - l.count("}")
+                opened = opened or "{" in l
+                if (opened and depth <= 0) or (not opened and l.rstrip().endswith(";")):
+                    skip = False
                 continue
             code = l.split("//")[0]
             if not code.strip() or code.strip().startswith(("///", "//", "#[", "use ")):
@@ -79,6 +88,8 @@ def main():
             t0 = time.time()
             hits = {}
             for c in checks:
+                if len(hits) >= int(os.environ.get("MUT_STOP_AFTER", "99")):
+                    break
                 rc, out = run(["./check", c], VERIF)
                 if rc != 0:
                     first = [l for l in out.splitlines() if l.startswith("VIOLATION")]
